@@ -365,6 +365,12 @@ def rayleigh_bounded_instance():
         res['pca'] = bf.get_pca_vector(tgt, scaling=inp['scaling'])
         res['ban'] = bf.blind_analytic_normalization(res['gev'], noi)
         res['ban_scaled'] = bf.blind_analytic_normalization(res['gev'] * 7.3, noi)
+        # through the wrapper, with the solver option forwarded: the core vector, its normalised version, other beamformers
+        res['w_gev'] = bw.get_bf_vector('gev', tgt, noi, use_eig=inp['use_eig'])
+        res['w_gev_ban'] = bw.get_bf_vector('gev+ban', tgt, noi, use_eig=inp['use_eig'])
+        res['w_r1_gev_ban'] = bw.get_bf_vector('rank1_gev+gev+ban', tgt, noi, use_eig=inp['use_eig'], atf_kwargs={'use_eig': inp['use_eig']})
+        okw = {'mvdr_souden': {'ref_channel': 0}, 'wmwf': {'reference_channel': 0}, 'wmwf+ban': {'reference_channel': D - 1}}
+        res['w_others'] = {n: bw.get_bf_vector(n, tgt, noi, **okw.get(n, {})) for n in ('pca', 'mvdr_souden', 'wmwf', 'pca+mvdr', 'rank1_pca+gev', 'wmwf+ban')}
         steer = cn(*lead, D)
         r1 = steer[..., :, None] * np.conj(steer[..., None, :]) * 2.5
         if inp['zero_bin'] and lead:
@@ -395,6 +401,14 @@ def rayleigh_bounded_instance():
         fac = np.sqrt(q(out['gev'], noi @ noi)) / q(out['gev'], noi)
         yield 'ban-is-positive-real-factor', bool(np.allclose(out['ban'], out['gev'] * fac[..., None], rtol=1e-8))
         yield 'ban-independent-of-input-magnitude', bool(np.allclose(out['ban'], out['ban_scaled'], rtol=1e-8))
+        wg = out['w_gev']
+        wfac = np.sqrt(q(wg, noi @ noi)) / q(wg, noi)
+        yield 'wrapper-gev+ban-is-the-ban-factor-times-the-wrapper-gev-vector[use_eig=%s]' % inp['use_eig'], bool(np.allclose(out['w_gev_ban'], wg * wfac[..., None], rtol=1e-8))
+        yield 'wrapper-gev+ban-snr-equals-largest-generalised-eigenvalue', bool(np.allclose(q(out['w_gev_ban'], tgt) / q(out['w_gev_ban'], noi), lam, rtol=1e-6))
+        wr = out['w_r1_gev_ban']
+        yield 'wrapper-rank1_gev+gev+ban-unit-ban-gain', bool(np.allclose(np.sqrt(q(wr, noi @ noi)) / q(wr, noi), 1.0, rtol=1e-6))
+        for n, w in out['w_others'].items():
+            yield 'gev-snr-not-exceeded-by-wrapper[%s]' % n, bool(np.all(q(w, tgt) / q(w, noi) <= snr * (1 + 1e-8)))
         for key in ('r1_pca', 'r1_gev'):
             r = out[key]
             yield key + '-hermitian', bool(np.allclose(r, np.conj(np.swapaxes(r, -1, -2)), atol=1e-9))
